@@ -502,6 +502,8 @@ func parseSearchQuery(query, countryCode string, withLogin bool) ([][]string, []
 	ctx := context{preOp: AND}
 	var out []token
 	var prev int
+	// The previous rune was a closing quote.
+	var closed bool
 	query = strings.TrimSpace(query)
 	// Split query into tokens.
 	for i, w, pos := 0, 0, 0; prev != END; i, pos = i+w, pos+1 {
@@ -525,12 +527,19 @@ func parseSearchQuery(query, countryCode string, withLogin bool) ([][]string, []
 			}
 		}
 
+		if closed && (curr == ORD || curr == QUO) {
+			// Reject strings like "a"b: a closing quote must be followed by an operator.
+			return nil, nil, fmt.Errorf("missing operator at or near %d", pos)
+		}
+		closed = false
+
 		// The quote has been opened by the current rune: it belongs to the next token, not to the one being emitted.
 		var opened bool
 		if curr == QUO {
 			if ctx.quo {
 				// End of the quoted string. Close the quote.
 				ctx.quo = false
+				closed = true
 			} else {
 				if prev == ORD {
 					// Reject strings like a"b
